@@ -380,7 +380,9 @@ BareMethod(sp) == ResolveConf(sp)[1] = "one" /\ IsMethod(ResolveConf(sp)[2]) /\ 
 RECURSIVE Flatten(_)
 Flatten(v) ==
   CASE Tag(v) \in {"list", "tuple"} -> {v} \cup UNION { Flatten(v[2][i]) : i \in 1..Len(v[2]) }
-    [] Tag(v) = "dict" -> {v} \cup UNION { Flatten(v[2][i][1]) \cup Flatten(v[2][i][2]) : i \in 1..Len(v[2]) }
+    \* (as the code: a mapping contributes its values, not its keys - a reference used only as a dict key is not seen by
+    \* the finalize hooks; recorded as an observation in DESIGN.md)
+    [] Tag(v) = "dict" -> {v} \cup UNION { Flatten(v[2][i][2]) : i \in 1..Len(v[2]) }
     [] OTHER -> {v}
 AllValues(cf) == UNION { Flatten(cf[i].val) : i \in 1..Len(cf) }
 
@@ -407,9 +409,10 @@ ResolveVal(v) ==
          IF \E i \in 1..Len(rs) : rs[i][1] # "ok" THEN <<"ValueError", v>>
          ELSE <<"ok", <<Tag(v), [i \in 1..Len(rs) |-> rs[i][2]]>>>>
     [] Tag(v) = "dict" ->
-         LET rs == [i \in 1..Len(v[2]) |-> ResolveVal(v[2][i][2])] IN
-         IF \E i \in 1..Len(rs) : rs[i][1] # "ok" THEN <<"ValueError", v>>
-         ELSE <<"ok", <<"dict", [i \in 1..Len(rs) |-> <<v[2][i][1], rs[i][2]>>]>>>>
+         LET rs == [i \in 1..Len(v[2]) |-> ResolveVal(v[2][i][2])]
+             ks == [i \in 1..Len(v[2]) |-> ResolveVal(v[2][i][1])] IN       \* keys are values too
+         IF \E i \in 1..Len(rs) : rs[i][1] # "ok" \/ ks[i][1] # "ok" THEN <<"ValueError", v>>
+         ELSE <<"ok", <<"dict", [i \in 1..Len(rs) |-> <<ks[i][2], rs[i][2]>>]>>>>
     [] OTHER -> <<"ok", v>>
 ResolvePct(v) == ResolveVal(v)
 
